@@ -378,3 +378,44 @@ def _labels_and_type(n: int, herald: bool, n_labels: int, dtype: int) -> bool:
     post: _
     """
     return _untraced(_labels_and_type_body, n, herald, n_labels, dtype)
+
+
+def _labels_ext_herald_body(n, group, hi, ho, n_labels, mpl):
+    """mode labels on a circuit with a herald set directly on it (and
+    optionally a heralded group): exactly n labels are accepted (one per mode
+    that is not internal to a group), every other count is a DisplayError"""
+    c = lw.Circuit(n)
+    c.bs(0)
+    if group:
+        c.add(_sub(1, 1, 0, False), 0)
+    c.herald(1, hi, ho)
+    before = _observe(c)
+    labels = [f"m{i}" for i in range(n_labels)]
+    kind = "mpl" if mpl else "svg"
+    try:
+        r = Display(c, mode_labels=labels, display_type=kind)
+        if mpl:
+            shown = [t.get_text() for t in r[1].get_yticklabels()]
+            plt.close("all")
+            if [s for s in shown if s != "-"] != labels:
+                return False
+    except DisplayError:
+        plt.close("all")
+        return n_labels != n and _observe(c) == before
+    return n_labels == n and r is not None and _observe(c) == before
+
+
+def _labels_ext_herald_mpl(n: int, group: bool, hi: int, ho: int, n_labels: int) -> bool:
+    """
+    pre: 2 <= n <= 3 and 0 <= hi < n and 0 <= ho < n and n - 1 <= n_labels <= n + 1
+    post: _
+    """
+    return _untraced(_labels_ext_herald_body, n, group, hi, ho, n_labels, True)
+
+
+def _labels_ext_herald_svg(n: int, group: bool, hi: int, ho: int, n_labels: int) -> bool:
+    """
+    pre: 2 <= n <= 3 and 0 <= hi < n and 0 <= ho < n and n - 1 <= n_labels <= n + 1
+    post: _
+    """
+    return _untraced(_labels_ext_herald_body, n, group, hi, ho, n_labels, False)
